@@ -142,7 +142,7 @@ func RunC18A(t *testing.T) {
 		var msgIdx []int
 		for i, o := range ops {
 			switch o.Kind {
-			case OpBlock, OpAddAllowed, OpUpdateAllowed, OpSetBalance:
+			case OpBlock, OpAddAllowed, OpUpdateAllowed, OpSetBalance, OpReimport:
 			case OpUpdateParams:
 				if !(o.Signer < 0 && o.SignerStr == "") && txSigner(o) >= 0 {
 					msgIdx = append(msgIdx, i)
@@ -319,7 +319,7 @@ func RunC08A(t *testing.T) {
 			if a.Failed != "" {
 				break // a failing block is C07's business
 			}
-			if o.Kind == OpAddAllowed || o.Kind == OpUpdateAllowed || o.Kind == OpSetBalance || (o.Kind == OpUpdateParams && o.Signer < 0) {
+			if o.Kind == OpAddAllowed || o.Kind == OpUpdateAllowed || o.Kind == OpSetBalance || o.Kind == OpReimport || (o.Kind == OpUpdateParams && o.Signer < 0) {
 				prev = TakeSnap(a.B, a.Ctx())
 			}
 		}
